@@ -17,10 +17,11 @@ void ll_native_assume_fail(const char* what);
 #ifndef LL_ARENA_T
 #define LL_ARENA_T uint8_t*
 #endif
-static LL_ARENA_T ll_arena[LL_ARENA_PTR_CELLS]; static uint64_t ll_arena_used; int ll_arena_exhausted;
+#define LL_PER_CELL (8 / sizeof(LL_ARENA_T))
+static LL_ARENA_T ll_arena[LL_ARENA_PTR_CELLS * LL_PER_CELL]; static uint64_t ll_arena_used; int ll_arena_exhausted;
 uint8_t* _Znwm(uint64_t n) { uint64_t cells = (n + 7) / 8; uint64_t at = ll_arena_used;
   if (at + cells > LL_ARENA_PTR_CELLS) { ll_arena_exhausted = 1; LL_ASSUME(0); }
-  ll_arena_used = at + cells; return (uint8_t*)&ll_arena[at]; }
+  ll_arena_used = at + cells; return (uint8_t*)&ll_arena[at * LL_PER_CELL]; }
 #define free(p) ((void)(p))
 #define LL_HAVE_ARENA 1
 #else
